@@ -56,6 +56,13 @@ def scenario_of(case):
         scn["flow"]["alpha"] = 0.0
         scn["flow"]["inflate"] = float(rng.uniform(4.0, 12.0))
         scn["bounded_to_unbounded"] = False
+        if scn["dtype"] == "float32" and scn["sampler"] == "smc" and rng.integers(4) != 0:
+            # a float32 run whose prior hands back float64 numpy values and marks the excluded region with a finite sentinel
+            # (-1e300, a common "log of zero" stand-in) instead of -inf: in the run's own precision that IS minus infinity, so
+            # such draws have no place in the initial population
+            scn["target"]["prior_floor"] = -1e300
+            scn["return_numpy"] = True
+            scn["_prior_sentinel"] = True
     return scn
 
 
